@@ -149,6 +149,7 @@ impl Pager {
 //@| ensures final(self).meta == old(self).meta, final(self).bitmap == old(self).bitmap,
 //@|     final(self).bytes().len() == old(self).bytes().len(),
 //@|     forall|i: int| 16384 <= i < old(self).bytes().len() ==> #[trigger] final(self).bytes()[i] == old(self).bytes()[i],
+//@|     r is Ok ==> final(self).disk_synced(),
 //@prewrite "&self.file" => "&mut self.file"
 //@prewrite "self.file.sync_data()?;" => "vfile_sync_data(&mut self.file)?;"
 //@end
@@ -161,6 +162,7 @@ impl Pager {
 //@|     forall|q: int| 0 <= q < 65536 && q != page_id.0 ==> #[trigger] final(self).bitmap.bit(q) == old(self).bitmap.bit(q),
 //@|     forall|i: int| 16384 <= i < old(self).bytes().len() ==> #[trigger] final(self).bytes()[i] == old(self).bytes()[i],
 //@|     r is Ok ==> final(self).bytes().len() >= (page_id.0 + 1) * 8192,
+//@|     r is Ok ==> final(self).disk_synced(),
 //@|     2 <= page_id.0 < 65536 ==> final(self).next() == (if old(self).next() > page_id.0 { old(self).next() } else { page_id.0 + 1 }),
 //@|     !(2 <= page_id.0 < 65536) ==> final(self).next() == old(self).next(),
 //@prewrite "self.file.metadata()?.len()" => "vfile_len(&self.file)?"
@@ -173,7 +175,9 @@ impl Pager {
 //@|     forall|i: int| 16384 <= i < old(self).bytes().len() ==> #[trigger] final(self).bytes()[i] == old(self).bytes()[i],
 //@|     r is Ok ==> 2 <= r->Ok_0.0 < 65536 && !old(self).alloc(r->Ok_0.0 as int) && final(self).alloc(r->Ok_0.0 as int)
 //@|         && (forall|q: int| 0 <= q < 65536 && q != r->Ok_0.0 ==> #[trigger] final(self).bitmap.bit(q) == old(self).bitmap.bit(q))
-//@|         && final(self).bytes().len() >= (r->Ok_0.0 + 1) * 8192,
+//@|         && final(self).bytes().len() >= (r->Ok_0.0 + 1) * 8192
+//@|         // C18 'correct after reopen': the allocation is in the bitmap page on disk when allocate_page returns
+//@|         && final(self).disk_synced(),
 //@end
 
 //@extract nervusdb-storage/src/pager.rs Pager::free_page ret r
@@ -182,7 +186,7 @@ impl Pager {
 //@|     final(self).bytes().len() == old(self).bytes().len(),
 //@|     forall|i: int| 16384 <= i < old(self).bytes().len() ==> #[trigger] final(self).bytes()[i] == old(self).bytes()[i],
 //@|     forall|q: int| 0 <= q < 65536 && q != page_id.0 ==> #[trigger] final(self).bitmap.bit(q) == old(self).bitmap.bit(q),
-//@|     r is Ok ==> 2 <= page_id.0 < 65536 && old(self).alloc(page_id.0 as int) && !final(self).alloc(page_id.0 as int),
+//@|     r is Ok ==> 2 <= page_id.0 < 65536 && old(self).alloc(page_id.0 as int) && !final(self).alloc(page_id.0 as int) && final(self).disk_synced(),
 //@|     !(2 <= page_id.0 < 65536 && old(self).alloc(page_id.0 as int)) ==> r is Err && final(self).alloc(page_id.0 as int) == old(self).alloc(page_id.0 as int),
 //@end
 
